@@ -366,7 +366,31 @@ static int step_program(const prog_t *p, pstate_t *st)
                         if (cs) cJSONUtils_SortObjectCaseSensitive(x); else cJSONUtils_SortObject(x);
                         break;
                     default:
+                    {
+                        /* pointer construction for a node some levels down (arrays and objects on the way), and its lookup */
+                        cJSON *node = x;
+                        long sel = o->b + 3 * o->c;
+                        int depth;
+                        char *ptr;
+                        for (depth = 0; depth < 6 && node->child != NULL && !(node->type & cJSON_IsReference); depth++)
+                        {
+                            int n = cJSON_GetArraySize(node);
+                            cJSON *ch = cJSON_GetArrayItem(node, (int)((sel + depth) % (n > 0 ? n : 1)));
+                            if (ch == NULL)
+                            {
+                                break;
+                            }
+                            node = ch;
+                        }
+                        ptr = cJSONUtils_FindPointerFromObjectTo(x, node);
+                        h = fold_str(h, ptr);
+                        if (ptr != NULL)
+                        {
+                            h = fold_int(h, cJSONUtils_GetPointerCaseSensitive(x, ptr) == node);
+                            cJSON_free(ptr);
+                        }
                         break;
+                    }
                 }
                 break;
             }
